@@ -25,6 +25,16 @@ def run (j : Json) : R Json := do
     let qs ← fVecs j "q"
     if !sameDim p.length qs then throw "dimension mismatch" else
     pure (obj [("d2", ofRats (qs.map (ptPtSq p)))])
+  | "ptpt1" =>
+    let p ← fVec j "p"
+    let qs ← fVecs j "q"
+    if !sameDim p.length qs then throw "dimension mismatch" else
+    pure (obj [("d1", ofRats (qs.map (ptPt1 p)))])
+  | "ptset" =>
+    let pts ← fVecs j "pts"
+    let md ← fBool j "max_diag"
+    if !sameDim ((pts.headD []).length) pts then throw "dimension mismatch" else
+    pure (obj [("d2", ofList ofRats (pointSet md pts))])
   | "ptseg" =>
     let pts ← fVecs j "pts"
     let segs ← fSegs j "segs"
